@@ -452,7 +452,7 @@ func c10ownership(role string) zzmc.Scenario {
 			sw := newSoloWorld(raw)
 			sw.onSend, sw.onDeliver = nil, nil // the ledger is not used here (and is not meant for concurrent use)
 			a, conn := sw.x.agent, sw.x.conn
-			zzmc.OwnStart("*ice.Agent", "taskloop.go:")
+			zzmc.OwnStart("*ice.Agent", "taskloop.go:", "*ice.CandidatePair", "*ice.candidateBase")
 			calls := 0
 			sel := "no selection before the restart"
 			api := func(phase string) {
